@@ -44,6 +44,9 @@ ASSUMPTIONS = ["the seeded grid is constrained (bounds, non-emptiness), not pinn
 def make_recipe(rng, tier):
     p = int(rng.integers(1, 4))
     spec, nmin = sbs(rng, p, dense_events=bool(rng.random() < 0.7))
+    from vf.zoo import _no_negative_tuned_threshold
+
+    spec = _no_negative_tuned_threshold(spec)
     r = rng.random()
     nmax = 70 if tier == "quick" else (300 if rng.random() < 0.05 else 100)
     n = nmin if r < 0.06 else int(rng.integers(nmin, max(nmin + 1, nmax)))
@@ -53,6 +56,8 @@ def make_recipe(rng, tier):
     int_dtype = bool(rng.random() < 0.15)
     if int_dtype:
         X = np.round(2 * X)
+    elif rng.random() < 0.2:
+        X = X * float(rng.choice([1e-3, 1e-5, 1e-7]))  # the same signal in a small unit of measurement
     return {"det": spec, "X": X, "data_kind": kind, "int_dtype": int_dtype}
 
 
@@ -126,7 +131,7 @@ def exec_case(ctx, r):
         cuts = np.column_stack((np.full(splits.size, st[i]), splits, np.full(splits.size, en[i])))
         agg = cs.evaluate(cuts).sum(axis=1)
         ctx.stat("table_rows_checked")
-        tol = 1e-9 * (1 + np.abs(agg).max())
+        tol = 1e-9 * np.abs(agg).max() + 1e-300  # purely relative: scores scale with the data's unit
         if abs(sc[i] - agg.max()) > tol:
             ctx.violation(sub, "row-score", f"{label}: interval [{st[i]},{en[i]}) reports score {sc[i]} "
                           f"but the maximum over admissible splits is {agg.max()}", r)
